@@ -11,6 +11,12 @@ CLAIMED = {
  "C01": ("TLA+ zone semantics (Zones.tla) model-checked on synthetic zones; TLC trace validation of real calls at every tz-database transition",
          "TLC model-checks the zone semantics (two independent formulations agree on every transition geometry) and then judges every recorded in_timezone/astimezone/from_timestamp/instance/timestamp call of the real library - at every UTC-offset transition of every shipped zone, chains A->B->C on threaded objects, all tzinfo source kinds - against the TLA+ reference result; conformance of the code to the spec is by trace validation, so it covers what was executed, not all inputs",
          "TLC, CPython zoneinfo + TZif files as the tz database, harness projection and TZif decoder (cross-checked against zoneinfo at setup)", "7 C01"),
+ "C02": ("TLA+ normalisation rule (Zones.tla: Classify/Normalize) model-checked on synthetic zones; TLC trace validation of every construction entry point at every gap/overlap of the tz database",
+         "TLC model-checks that the documented normalisation always yields an existing wall time and that PEP 495 classification equals the declarative count of occurrences; every recorded datetime()/create/convert/Timezone.datetime/local/parse(tz=)/set/on/at/replace/in_timezone(naive) call at the boundaries and inside of the gaps and overlaps enumerated from the tz data (x fold x raise_on_unknown_times) is judged by TLC against Create/Construct",
+         "TLC, CPython zoneinfo + TZif files as the tz database, harness projection and TZif decoder", "7 C02"),
+ "C03": ("TLA+ exact instant arithmetic (TimeScale.tla, OpsTz.AddFixed); TLC trace validation of add/subtract/+-timedelta around every transition",
+         "every recorded add()/subtract()/+ timedelta/- timedelta/timedelta + dt call with only fixed-length units - sources on either side of and inside every transition (both folds), amounts straddling it, mixed-sign components, random amounts up to 1e9 s, naive values, subtract() undoing add() on the threaded object - is judged by TLC against FromInst(zone, Inst(src) + d) computed in exact limb arithmetic",
+         "TLC, tz database as above, harness projection", "7 C03"),
 }
 NOT_YET = "check not built yet in this round (planned: see DESIGN.md section 7)"
 
